@@ -289,7 +289,7 @@ func (w *world) runSync(key string) (outcome, detail string) {
 
 // ---- scenario ---------------------------------------------------------------------------------
 
-var dmethods = []string{"", "OnDelete", "Recreate", "InPlace", "Bogus"}
+var dmethods = []string{"", "OnDelete", "Recreate", "InPlace", "Bogus", "RollingRecreate", "RollingInPlace"}
 
 func genDCfg(r *vs.Rand) dcfg {
 	cfg := dcfg{Name: "dc"}
